@@ -95,7 +95,7 @@ func AnyU8(name string) byte   { return byte(AnyU64(name)) }
 func AnyU32(name string) uint32 { return uint32(AnyU64(name)) }
 func AnyBytes(name string, n int) []byte {
 	b, _ := hex.DecodeString(next("bytes", name))
-	return b
+	return b[:len(b):len(b)] // capacity = length, as in the symbolic run (slice bounds are checked against capacity)
 }
 func AnyStr(name string, n int) string { return string(AnyBytes(name, n)) }
 
@@ -388,4 +388,15 @@ func NativeRetryUntil(name string, observed int) bool {
 	}
 	cur.retries++
 	return cur.retries > 300000
+}
+
+// SwapCase changes the case of the first letter at index >= 3 of s (for an encoded multihash: behind the code and
+// length prefix), giving a different text that is equal under case folding. ok is false if there is no such letter.
+func SwapCase(s string) (string, bool) {
+	for i := 3; i < len(s); i++ {
+		if ch := s[i] | 0x20; ch >= 'a' && ch <= 'z' {
+			return s[:i] + string(s[i]^0x20) + s[i+1:], true
+		}
+	}
+	return s, false
 }
